@@ -45,6 +45,16 @@ PendingOnce(c, p) ==
   /\ \A t \in RealCore(c) : CoreRec(c, t).st = "W"
 DepsIntact(c, p) ==
   \A t \in RealCore(c) \cap Pending(p) : CoreRec(c, t).nd = Cardinality(RemainingDeps(p, t))
+\* C08 "never reported started ... afterwards": a task whose cancel is in the durable prefix is not given to the scheduler again
+CanceledStays(c, p) == \A t \in RealCore(c) : Outcome(p, t) # "Canceled"
+\* C03 over a restart: no task is pending behind a dependency that ended badly AFTER the task had been submitted (the abort of the
+\* dependents is journaled before the failure itself, so that no cut separates them; a task submitted after its dependency
+\* had already ended badly is the known finding of the live system and not judged here)
+SubmitIdxOfTask(p, t) ==
+  LET S == {i \in SubmitIdx(p, JobOfT(t)) : \E x \in SSet(p[i].tasks) : Tid(JobOfT(t), x.id) = t} IN IF S = {} THEN 0 ELSE Min(S)
+NoPendingBehindBadDep(c, p) ==
+  \A t \in RealCore(c) \cap Pending(p) : \A d \in DepsOf(p, t) :
+     Outcome(p, d) \in {"Failed", "Canceled", "Aborted"} => SubmitIdxOfTask(p, t) > Max(TermIdx(p, d))
 InstAfterRestart(c, p) ==
   \A t \in RealCore(c) \cap Pending(p) : CoreRec(c, t).inst > MaxStartedInst(p, t)
 CrashSurvives(c, p) ==
@@ -66,6 +76,8 @@ CutViol(c, J) ==
     (IF Counters(c) THEN {} ELSE {"C10_Counters"}) \cup
     (IF PendingOnce(c, p) THEN {} ELSE {"C10_PendingOnce"}) \cup
     (IF DepsIntact(c, p) THEN {} ELSE {"C10_DepsIntact", "C03_DepsSurviveRestart"}) \cup
+    (IF NoPendingBehindBadDep(c, p) THEN {} ELSE {"C03_NoPendingBehindBadDep"}) \cup
+    (IF CanceledStays(c, p) THEN {} ELSE {"C08_CanceledStaysAfterRestart"}) \cup
     (IF InstAfterRestart(c, p) THEN {} ELSE {"C06_InstAfterRestart"}) \cup
     (IF CrashSurvives(c, p) THEN {} ELSE {"C07_CrashSurvivesRestart"}) \cup
     (IF QueuesRestored(c, p) THEN {} ELSE {"C12_QueuesRestored"}) \cup
